@@ -204,6 +204,13 @@ class GeminiClient:
             # If TOFU is enabled, verify the certificate
             if self.tofu_db:
                 cert = protocol.get_peer_certificate()
+                if cert is None:
+                    # No certificate could be read (not presented, or not
+                    # parseable): never treat that as "unpinned and trusted"
+                    raise ConnectionError(
+                        f"Cannot verify {parsed.hostname}:{parsed.port}: "
+                        "the peer certificate could not be read"
+                    )
                 if cert:
                     is_valid, message = self.tofu_db.verify(
                         parsed.hostname, parsed.port, cert
@@ -399,6 +406,13 @@ class GeminiClient:
             # If TOFU is enabled, verify the certificate
             if self.tofu_db:
                 cert = protocol.get_peer_certificate()
+                if cert is None:
+                    # No certificate could be read (not presented, or not
+                    # parseable): never treat that as "unpinned and trusted"
+                    raise ConnectionError(
+                        f"Cannot verify {parsed.hostname}:{parsed.port}: "
+                        "the peer certificate could not be read"
+                    )
                 if cert:
                     is_valid, message = self.tofu_db.verify(
                         parsed.hostname, parsed.port, cert
